@@ -166,8 +166,9 @@ func SupportedHash(env *ty.Env, t *ty.Ty) bool {
 
 // SupportedDeepCopy: what deriveDeepCopy(dst, src T) accepts and compiles for (C05's grammar):
 // T is a pointer, slice or map; map keys are pointer-free ("value keys"); no pointer to an unnamed
-// struct at top level, no unnamed non-copyable struct component, no map whose values are
-// non-copyable arrays (finding F19: the emitted `dst[k][i] = …` does not compile).
+// struct at top level, no unnamed non-copyable struct component (goderive refuses those with a message).
+// Maps whose values are non-copyable arrays used to be left out because the emitted code did not compile
+// (finding F44, repaired in /repo): they are part of the corpus now.
 func SupportedDeepCopy(env *ty.Env, t *ty.Ty) bool {
 	u := env.Under(t)
 	if u.K != ty.Ptr && u.K != ty.Slice && u.K != ty.Map {
